@@ -82,6 +82,12 @@ class BareMove:
         s["calls"] += 1
         if s["shift"] is not None and len(context.atoms):
             context.atoms.positions[0] += s["shift"]
+        if s.get("grow_once"):
+            # a user move may change the atom count by its own means (it knows nothing of the package's contexts)
+            s["grow_once"] = False
+            from ase import Atoms as _Atoms
+
+            context.atoms.extend(_Atoms("He", positions=[[0.7, 0.9, 1.1 + 0.01 * len(context.atoms)]]))
         return s["results"].pop(0) if s["results"] else False
 
     def on_atoms_changed(self, added_indices, removed_indices):
@@ -438,6 +444,54 @@ class C20Machine(M.HistoryMachine):
                 self.falsy += 1
         self.labels.add("two-cycles-in-one-step")
         self._after_any_trial(where, None, [], [], False)
+
+    @rule(i=st.integers(0, 2))
+    def user_move_grows_the_system(self, i):
+        """Grand canonical driver, no shipped exchange entry: a user move adds an atom itself and is accepted by its
+        criteria.  Every user move of the table hears of the accepted change (what the call carries is not prescribed)."""
+        if self.dead or self.mc is None or self.scn["driver"] != "GrandCanonical" or self.shipped:
+            return
+        self.log.append({"rule": "user_move_grows_the_system", "args": {"i": i}})
+        i = i % len(self.users)
+        mv, cr = self.users[i]
+        _st(mv)["results"], _st(mv)["grow_once"] = [True], True
+        _st(cr)["verdicts"] = [True]
+        listeners = [(f"u{k}", m) for k, (m, _c) in enumerate(self.users)]
+        if getattr(self, "idle", None):
+            listeners.append(("idle", self.idle[0]))
+        if getattr(self, "wrapped", None):
+            listeners += [("w[0]", self.wrapped[0]), ("w[1]", self.wrapped[1])]
+        before = {name: len(_st(m)["atoms_notes"]) for name, m in listeners}
+        n0 = len(self.atoms)
+        self._select(f"u{i}")
+
+        def body():
+            for step in self.mc.irun(1):
+                for _ in step:
+                    pass
+
+        try:
+            self.guarded("step", body)
+        except M.Stop:
+            return
+        ids = self.atoms.arrays["vid"]
+        for p in np.flatnonzero(ids == 0):
+            ids[p] = self.next_id
+            self.next_id += 1
+        hist = self.mc.move_history[-1] if self.mc.move_history else (None, None)
+        where = f"user move u{i} added an atom itself and was accepted"
+        if hist[1] is not True or len(self.atoms) != n0 + 1:
+            self.fail("user-growth-not-accepted", f"{where}: history {hist!r}, atoms {n0} -> {len(self.atoms)}")
+            return
+        deaf = [name for name, m in listeners if len(_st(m)["atoms_notes"]) == before[name]]
+        if deaf:
+            self.fail("atom-notification", f"{where}: user moves {deaf} were not told of the accepted change of the atom count (GrandCanonical)")
+            return
+        # these calls carry whatever the driver had; the bookkeeping of the other rules only counts non-empty ones
+        self.truthy += 1
+        self.accepted_change += 1
+        self.labels.add("user-move-changed-the-atom-count")
+        self._check_surface(where)
 
     @rule(ra=st.integers(0, len(RESULTS) - 1), rb=st.integers(0, len(RESULTS) - 1), verdict=st.booleans())
     def wrapped_trial(self, ra, rb, verdict):
